@@ -86,7 +86,7 @@ def eval_prestep(case):
 
 EVALUATORS = {"variant": eval_variant, "prestep": eval_prestep}
 
-CLEAN_SEGS = ["a", "b", "c", "x1", "Art", "page", "2024", "my-post", "%41b", "é", "a%20b", "caf%C3%A9", "Z_9", "a.b"]
+CLEAN_SEGS = ["a", "b", "c", "x1", "Art", "page", "2024", "my-post", "%41b", "é", "a%20b", "caf%C3%A9", "Z_9", "a.b", "a%2fb", "%c3%a9t%c3%a9", "x%3f"]
 KEPT = [["id", "42"], ["page", "2"], ["q", "a b"], ["b", "2"], ["a", "1"], ["a", "0"], ["c", None], ["B", "x"], ["é", "ü"], ["x", ""], ["lang", "fr"],
         ["z", "%41"], ["k", "a%20b"], ["y", "a=b"], ["n", "caf%C3%A9"], ["d", "a+b"]]
 ROUTING = ["/route/1", "!/tweet", "!hashbang/x", "/a?b=c"]
@@ -217,7 +217,7 @@ def _query_sweep(acc, shard, nshards, seed, tier):
     """all permutations of <=4 kept items x each tracking item at each position x separators"""
     pools = [[["t", None], ["t", ""], ["b", "2"]], [["k", ""], ["k", None], ["k", "1"], ["K", None]], [["b", "2"], ["a", "1"], ["c", None], ["q", "a b"]], [["id", "42"], ["B", "x"], ["é", "ü"]], [["a", "1"], ["a", "0"], ["x", ""]],
              [["k", "a%20b"], ["z", "%41"]], [["page", "2"]], []]
-    hosts = ["http://example.com/p", "https://www.facebook.com/zuck", "https://www.youtube.com/watch"]
+    hosts = ["http://example.com/p", "https://www.facebook.com/zuck", "https://www.youtube.com/watch", "https://WWW.YOUTUBE.COM:443/watch", "http://M.Facebook.com:80/zuck"]
     tracking_all = T.TRACKING_POOL
     idx = 0
 
